@@ -428,7 +428,8 @@ Section ParserP.
       { destruct (peek_group DBrace after); [exact Hstruct|exact Henum]. }
       eapply spec_bind; [apply spec_fork; apply spec_p_range|]. intros rk _.
       destruct rk; [apply spec_p_range|].
-      destruct ts as [|t r]; [apply spec_p_simple|].
+      sbind now.
+      destruct now as [|t r]; [apply spec_p_simple|].
       destruct t as [| |k text sp|]; try apply spec_p_simple.
       destruct k; try apply spec_p_simple.
       sbind_. sbind id. apply spec_ret. reflexivity.
